@@ -309,6 +309,153 @@ def map_hook(c, e, env, I):
     return NotImplemented
 
 
+def builder_phases(F, cls, rebuild, flags_member, dim, expected_flags, dirty, count_member, run):
+    """The layout builder written as several phases (a statement for waypoint 0, a loop over the inner waypoints, a
+    statement for waypoint N, ...).  Per flag assignment the pushes are taken in program order and threaded:
+      * the first entry's offset is N; every further entry's offset is the previous entry's offset + its width
+        (for a loop: the running local starts at that value and grows by dof(i) per iteration);
+      * every entry is (waypoint, running offset, dof(waypoint));
+      * the waypoints entered are, in increasing order, 0 iff start_p, 1 .. N-1 always, N iff end_p;
+      * the members written afterwards are the offset after the last entry and that + DIM * (flagged blocks)."""
+    from .. import paths
+    n = sp.Symbol(count_member, integer=True, positive=True)
+    dofF = sp.Function("dof")
+    fsym = lambda nm: sp.Symbol("%s.%s" % (flags_member, nm))
+    facts = {"range": True, "first": True, "entry": True, "advance": True, "clear": True, "doff": True, "total": True, "flags": True}
+    det = {}
+    roles = None
+    members = {}
+    okw = True
+    results = paths.explore(lambda o: run("middle", o))
+    # loops must not depend on the kind of iteration (no first / last special case inside them): otherwise it is the
+    # single-loop form in disguise and this reading would be wrong
+    for kind in ("first", "last"):
+        other = paths.explore(lambda o, kind=kind: run(kind, o))
+        sig = lambda res: sorted((sorted((str(k), v) for k, v in a.items()), [(L.lo, str(L.hi), [(e.target, e.op) for e in L.effects]) for L in I.loops]) for a, I in res)
+        if str(sig(other)) != str(sig(results)):
+            raise Broken("layout builder: a loop treats its first / last iteration differently and entries are also pushed outside it")
+    nwhich = [0, 0]
+    for assign, I in results:
+        evs = []
+        for e in I.effects:
+            if e.op == "push_back":
+                evs.append((getattr(e, "seq", 0), "push", e))
+        for L in I.loops:
+            if any(e.op == "push_back" for e in L.effects):
+                evs.append((getattr(L, "pos", 0), "loop", L))
+            elif L.effects:
+                raise Broken("layout builder: a loop that does something else than entering waypoints")
+        evs.sort(key=lambda t: t[0])
+        expected = n
+        cover = []
+        cont = None
+        for _, what, x in evs:
+            if what == "push":
+                v = x.value.f if isinstance(x.value, Struct) else {}
+                vals = {k_: sp.sympify(x_) for k_, x_ in v.items() if isinstance(x_, sp.Basic)}
+                r = {}
+                for fw_, w_ in vals.items():
+                    for fp_, p_ in vals.items():
+                        if fp_ != fw_ and sym.is_zero(w_ - dofF(p_)):
+                            r["width"], r["point"] = fw_, fp_
+                rest = [k_ for k_ in vals if k_ not in r.values()]
+                if len(vals) != 3 or len(r) != 2 or len(rest) != 1:
+                    facts["entry"] = False
+                    det["entry"] = "entry pushed: %s" % {k_: str(x_) for k_, x_ in v.items()}
+                    continue
+                r["offset"] = rest[0]
+                pt, off = vals[r["point"]], vals[r["offset"]]
+                lo_, hi_ = pt, pt + 1
+                nxt = off + dofF(pt)
+                cont = x.target
+            else:
+                L = x
+                push = [e for e in L.effects if e.op == "push_back"]
+                upd = [e for e in L.effects if e.target.startswith("$")]
+                ue = c06_upper_excl(L)
+                if len(push) != 1 or ue is None or L.step != 1 or any(e.guards for e in push):
+                    raise Broken("layout builder: the waypoint loop has a shape this rule does not understand")
+                v = push[0].value.f if isinstance(push[0].value, Struct) else {}
+                vals = {k_: sp.sympify(x_) for k_, x_ in v.items() if isinstance(x_, sp.Basic)}
+                car = [(nm, cs) for nm, cs in L.carried.items() if any(x_ == cs[0] for x_ in vals.values())]
+                r = {}
+                for fld, x_ in vals.items():
+                    if car and x_ == car[0][1][0]:
+                        r["offset"] = fld
+                    elif sym.is_zero(sp.diff(x_, L.var) - 1) and not x_.has(dofF):
+                        r["point"] = fld
+                if "point" in r:
+                    for fld, x_ in vals.items():
+                        if fld not in r.values() and sym.is_zero(x_ - dofF(vals[r["point"]])):
+                            r["width"] = fld
+                if len(r) != 3 or len(vals) != 3 or len(car) != 1:
+                    facts["entry"] = False
+                    det["entry"] = "entry pushed in the loop: %s" % {k_: str(x_) for k_, x_ in v.items()}
+                    continue
+                pt = vals[r["point"]]
+                delta = sum((sp.sympify(e.delta) for e in upd if e.delta is not None), sp.Integer(0)) if all(e.delta is not None for e in upd) else None
+                if delta is None or not sym.is_zero(delta - dofF(pt)) or any(e.target != "$" + car[0][0] for e in upd):
+                    facts["advance"] = False
+                    det["advance"] = "offset changes by %s when waypoint %s is entered" % (delta, pt)
+                off = sp.sympify(car[0][1][1])           # value of the running offset when the loop starts
+                c_ = sp.expand(pt - L.var)
+                lo_, hi_ = sp.expand(L.lo + c_), sp.expand(ue + c_)
+                nxt = car[0][1][0] + dofF(pt)            # the running offset after the loop, as the interpreter names it
+                cont = push[0].target
+                r = dict(r, carried=car[0][0])
+            if roles is None:
+                roles = dict(r, container=cont)
+                roles.setdefault("carried", None)
+            elif any(roles.get(k_) != r[k_] for k_ in ("point", "offset", "width")):
+                facts["entry"] = False
+                det["entry"] = "field roles differ between the entries"
+            if what == "loop" and roles.get("carried") is None:
+                roles["carried"] = r.get("carried")
+            if not sym.is_zero(off - expected):
+                key = "first" if not cover else "advance"
+                facts[key] = False
+                det[key] = "entry for waypoint %s gets offset %s where the running offset is %s" % (lo_, off, expected)
+            expected = nxt
+            cover.append((lo_, hi_))
+        sp_v, ep_v = assign.get(fsym("start_p")), assign.get(fsym("end_p"))
+        want_lo = sp.Integer(0) if sp_v is True else sp.Integer(1)
+        want_hi = (n + 1) if ep_v is True else n
+        good = bool(cover) and sp_v is not None and ep_v is not None and sym.is_zero(cover[0][0] - want_lo) and sym.is_zero(cover[-1][1] - want_hi) and all(sym.is_zero(a_[1] - b_[0]) for a_, b_ in zip(cover, cover[1:]))
+        nwhich[0] += 1
+        nwhich[1] += 1 if good else 0
+        if not good:
+            okw = False
+            facts["range"] = facts["range"] and bool(cover)
+            det["range"] = "with start_p=%s end_p=%s the waypoints entered are %s" % (sp_v, ep_v, [(str(a_), str(b_)) for a_, b_ in cover])
+        if not any(e.op == "clear" for e in I.effects):
+            facts["clear"] = False
+        finals = {e.target: e.value for e in I.effects if e.op == "=" and e.target not in (dirty,) and isinstance(e.value, sp.Basic) and e.target != cont}
+        D = [t for t, val in finals.items() if sym.is_zero(sp.sympify(val) - expected)]
+        cnt = sum(1 for fl in expected_flags if assign.get(fsym(fl)) is True)
+        if len(D) == 2 and len(finals) == 2 and cnt == 0:
+            continue
+        if len(D) != 1 or len(finals) != 2:
+            facts["doff"] = False
+            det["doff"] = "members written after the entries: %s (running offset %s)" % ({t: str(x_) for t, x_ in finals.items()}, expected)
+            continue
+        T = [t for t in finals if t != D[0]][0]
+        members.setdefault("D", D[0])
+        members.setdefault("T", T)
+        if members["D"] != D[0] or members["T"] != T:
+            facts["doff"] = False
+        if not sym.is_zero(finals[T] - finals[D[0]] - dim * cnt):
+            facts["total"] = False
+            det["total"] = "with %s: total - derivative offset = %s, expected %d * %d" % ({str(k_): v_ for k_, v_ in assign.items()}, sp.expand(finals[T] - finals[D[0]]), dim, cnt)
+        consulted = {str(k_)[len(flags_member) + 1:] for k_ in assign} - {"start_p", "end_p"}
+        if consulted != set(expected_flags):
+            facts["flags"] = False
+            det["flags"] = "derivative flags consulted: %s" % sorted(consulted)
+    if roles is None:
+        raise Broken("layout builder: no path pushes a layout entry")
+    wdet = "waypoints entered as required on %d of %d flag assignments (phases form)" % (nwhich[1], nwhich[0])
+    return facts, det, roles, members, okw, wdet, len(results)
+
+
 def check_builder(chk, F, cls, rebuild, flags_member, dim, expected_flags, dirty, count_member):
     """R1 on the meaning of the layout builder, not on its shape: the builder is interpreted once per kind of waypoint
     (first / inner / last) and per assignment of the flags it consults (paths.explore), with helper functions followed in
@@ -331,112 +478,123 @@ def check_builder(chk, F, cls, rebuild, flags_member, dim, expected_flags, dirty
         return I
 
     fsym = lambda nm: sp.Symbol("%s.%s" % (flags_member, nm))
-    results = {kind: paths.explore(lambda o, kind=kind: run(kind, o)) for kind in ("first", "middle", "last")}
-    facts = {"range": True, "first": True, "entry": True, "advance": True, "clear": True, "doff": True, "total": True, "flags": True}
-    det = {}
-    roles = None
-    pushing = {"first": [], "middle": [], "last": []}
-    members = {}
-    for kind, res in results.items():
-        for assign, I in res:
-            loops = [L for L in I.loops]
-            if len(loops) != 1:
-                raise Broken("layout builder: expected one loop over the waypoints, found %d" % len(loops))
-            L = loops[0]
-            i = L.var
-            ue = c06_upper_excl(L)
-            if not (L.lo == 0 and ue is not None and sym.is_zero(ue - (n + 1))):
-                facts["range"] = False
-                det["range"] = "%s .. %s" % (L.lo, ue)
-            push = [e for e in L.effects if e.op == "push_back"]
-            cont = push[0].target if push else None
-            upd = [e for e in L.effects if e.target.startswith("$")]
-            if len(push) > 1:
-                facts["entry"] = False
-                det["entry"] = "several entries pushed for one waypoint"
-                continue
-            delta = sum((sp.sympify(e.delta) for e in upd if e.delta is not None), sp.Integer(0)) if all(e.delta is not None for e in upd) else None
-            if push:
-                pushing[kind].append(assign)
-                v = push[0].value.f if isinstance(push[0].value, Struct) else {}
-                car = [(nm, cs) for nm, cs in L.carried.items() if any(sp.sympify(x) == cs[0] for x in v.values() if isinstance(x, sp.Basic))]
-                r = {}
-                for fld, x in v.items():
-                    if not isinstance(x, sp.Basic):
+
+    def single_loop():
+        results = {kind: paths.explore(lambda o, kind=kind: run(kind, o)) for kind in ("first", "middle", "last")}
+        facts = {"range": True, "first": True, "entry": True, "advance": True, "clear": True, "doff": True, "total": True, "flags": True}
+        det = {}
+        roles = None
+        pushing = {"first": [], "middle": [], "last": []}
+        members = {}
+        for kind, res in results.items():
+            for assign, I in res:
+                loops = [L for L in I.loops]
+                if len(loops) != 1:
+                    raise Broken("layout builder: expected one loop over the waypoints, found %d" % len(loops))
+                L = loops[0]
+                i = L.var
+                ue = c06_upper_excl(L)
+                if not (L.lo == 0 and ue is not None and sym.is_zero(ue - (n + 1))):
+                    facts["range"] = False
+                    det["range"] = "%s .. %s" % (L.lo, ue)
+                push = [e for e in L.effects if e.op == "push_back"]
+                cont = push[0].target if push else None
+                upd = [e for e in L.effects if e.target.startswith("$")]
+                if len(push) > 1:
+                    facts["entry"] = False
+                    det["entry"] = "several entries pushed for one waypoint"
+                    continue
+                delta = sum((sp.sympify(e.delta) for e in upd if e.delta is not None), sp.Integer(0)) if all(e.delta is not None for e in upd) else None
+                if push:
+                    pushing[kind].append(assign)
+                    v = push[0].value.f if isinstance(push[0].value, Struct) else {}
+                    car = [(nm, cs) for nm, cs in L.carried.items() if any(sp.sympify(x) == cs[0] for x in v.values() if isinstance(x, sp.Basic))]
+                    r = {}
+                    for fld, x in v.items():
+                        if not isinstance(x, sp.Basic):
+                            continue
+                        if sym.is_zero(x - i):
+                            r["point"] = fld
+                        elif car and sym.is_zero(x - car[0][1][0]):
+                            r["offset"] = fld
+                        elif sym.is_zero(x - dofF(i)):
+                            r["width"] = fld
+                    if len(r) != 3 or len(v) != 3 or len(car) != 1:
+                        facts["entry"] = False
+                        det["entry"] = "entry pushed for waypoint %s: %s" % (i, {k_: str(x) for k_, x in v.items()})
                         continue
-                    if sym.is_zero(x - i):
-                        r["point"] = fld
-                    elif car and sym.is_zero(x - car[0][1][0]):
-                        r["offset"] = fld
-                    elif sym.is_zero(x - dofF(i)):
-                        r["width"] = fld
-                if len(r) != 3 or len(v) != 3 or len(car) != 1:
-                    facts["entry"] = False
-                    det["entry"] = "entry pushed for waypoint %s: %s" % (i, {k_: str(x) for k_, x in v.items()})
-                    continue
-                if roles is None:
-                    roles = dict(r, container=cont, carried=car[0][0])
-                elif {k_: roles[k_] for k_ in r} != r:
-                    facts["entry"] = False
-                    det["entry"] = "field roles differ between paths"
-                if not sym.is_zero(car[0][1][1] - n):
-                    facts["first"] = False
-                    det["first"] = "running offset starts at %s" % car[0][1][1]
-                if delta is None or not sym.is_zero(delta - dofF(i)) or any(e.target != "$" + car[0][0] for e in upd):
-                    facts["advance"] = False
-                    det["advance"] = "offset changes by %s when waypoint %s is entered" % (delta, i)
-                carsym = car[0][1][0]
-            else:
-                if upd:
-                    facts["advance"] = False
-                    det["advance"] = "offset changes (%s) although waypoint %s is skipped" % ([str(e.delta) for e in upd], i)
-                carsym = None
-            if not any(e.op == "clear" for e in I.effects):
-                facts["clear"] = False
-            # the two totals written after the loop
-            finals = {e.target: e.value for e in I.effects if e.op == "=" and e.target not in (dirty,) and isinstance(e.value, sp.Basic) and e.target != cont}
-            if kind == "last":
-                cs = carsym if carsym is not None else (list(L.carried.values())[0][0] if len(L.carried) == 1 else None)
-                fin = (cs + dofF(i)) if push else cs
-                D = [t for t, val in finals.items() if cs is not None and sym.is_zero(val - fin)]
-                cnt = sum(1 for fl in expected_flags if assign.get(fsym(fl)) is True)
-                if len(D) == 2 and len(finals) == 2 and cnt == 0:
-                    continue          # no block flagged: both totals equal the final offset, as they must
-                if len(D) != 1 or len(finals) != 2:
-                    facts["doff"] = False
-                    det["doff"] = "members written after the loop: %s" % {t: str(x) for t, x in finals.items()}
-                    continue
-                T = [t for t in finals if t != D[0]][0]
-                members.setdefault("D", D[0])
-                members.setdefault("T", T)
-                if members["D"] != D[0] or members["T"] != T:
-                    facts["doff"] = False
-                cnt = sum(1 for fl in expected_flags if assign.get(fsym(fl)) is True)
-                if not sym.is_zero(finals[T] - finals[D[0]] - dim * cnt):
-                    facts["total"] = False
-                    det["total"] = "with %s: total - derivative offset = %s, expected %d * %d" % ({str(k_): v_ for k_, v_ in assign.items()}, sp.expand(finals[T] - finals[D[0]]), dim, cnt)
-                consulted = {str(k_)[len(flags_member) + 1:] for k_ in assign} - {"start_p", "end_p"}
-                if consulted != set(expected_flags):
-                    facts["flags"] = False
-                    det["flags"] = "derivative flags consulted: %s" % sorted(consulted)
-    if roles is None:
-        raise Broken("layout builder: no path pushes a layout entry")
+                    if roles is None:
+                        roles = dict(r, container=cont, carried=car[0][0])
+                    elif {k_: roles[k_] for k_ in r} != r:
+                        facts["entry"] = False
+                        det["entry"] = "field roles differ between paths"
+                    if not sym.is_zero(car[0][1][1] - n):
+                        facts["first"] = False
+                        det["first"] = "running offset starts at %s" % car[0][1][1]
+                    if delta is None or not sym.is_zero(delta - dofF(i)) or any(e.target != "$" + car[0][0] for e in upd):
+                        facts["advance"] = False
+                        det["advance"] = "offset changes by %s when waypoint %s is entered" % (delta, i)
+                    carsym = car[0][1][0]
+                else:
+                    if upd:
+                        facts["advance"] = False
+                        det["advance"] = "offset changes (%s) although waypoint %s is skipped" % ([str(e.delta) for e in upd], i)
+                    carsym = None
+                if not any(e.op == "clear" for e in I.effects):
+                    facts["clear"] = False
+                # the two totals written after the loop
+                finals = {e.target: e.value for e in I.effects if e.op == "=" and e.target not in (dirty,) and isinstance(e.value, sp.Basic) and e.target != cont}
+                if kind == "last":
+                    cs = carsym if carsym is not None else (list(L.carried.values())[0][0] if len(L.carried) == 1 else None)
+                    fin = (cs + dofF(i)) if push else cs
+                    D = [t for t, val in finals.items() if cs is not None and sym.is_zero(val - fin)]
+                    cnt = sum(1 for fl in expected_flags if assign.get(fsym(fl)) is True)
+                    if len(D) == 2 and len(finals) == 2 and cnt == 0:
+                        continue          # no block flagged: both totals equal the final offset, as they must
+                    if len(D) != 1 or len(finals) != 2:
+                        facts["doff"] = False
+                        det["doff"] = "members written after the loop: %s" % {t: str(x) for t, x in finals.items()}
+                        continue
+                    T = [t for t in finals if t != D[0]][0]
+                    members.setdefault("D", D[0])
+                    members.setdefault("T", T)
+                    if members["D"] != D[0] or members["T"] != T:
+                        facts["doff"] = False
+                    cnt = sum(1 for fl in expected_flags if assign.get(fsym(fl)) is True)
+                    if not sym.is_zero(finals[T] - finals[D[0]] - dim * cnt):
+                        facts["total"] = False
+                        det["total"] = "with %s: total - derivative offset = %s, expected %d * %d" % ({str(k_): v_ for k_, v_ in assign.items()}, sp.expand(finals[T] - finals[D[0]]), dim, cnt)
+                    consulted = {str(k_)[len(flags_member) + 1:] for k_ in assign} - {"start_p", "end_p"}
+                    if consulted != set(expected_flags):
+                        facts["flags"] = False
+                        det["flags"] = "derivative flags consulted: %s" % sorted(consulted)
+        if roles is None:
+            raise Broken("layout builder: no path pushes a layout entry")
+        sp_, ep_ = fsym("start_p"), fsym("end_p")
+        all_first, all_last = [a for a, _ in results["first"]], [a for a, _ in results["last"]]
+        okw = (all(a.get(sp_) is True for a in pushing["first"]) and all(a.get(sp_) is False for a in all_first if a not in pushing["first"]) and
+               all(a.get(ep_) is True for a in pushing["last"]) and all(a.get(ep_) is False for a in all_last if a not in pushing["last"]) and
+               len(pushing["middle"]) == len(results["middle"]) and bool(pushing["first"]) and bool(pushing["last"]))
+        wdet = "entered: first on %d of %d flag assignments, last on %d of %d, inner on %d of %d" % (len(pushing["first"]), len(all_first), len(pushing["last"]), len(all_last), len(pushing["middle"]), len(results["middle"]))
+        return facts, det, roles, members, okw, wdet, len(results["last"])
+
+    # the shape of the builder: one loop over all waypoints (entries pushed by the loop only), or several phases (a
+    # statement for the first waypoint, a loop over the inner ones, a statement for the last, in whatever mix)
+    probe = run("middle", lambda s_, c_, I_: True if isinstance(c_, sp.Basic) else None)
+    straight = [e for e in probe.effects if e.op == "push_back"]
+    if len(probe.loops) == 1 and not straight:
+        facts, det, roles, members, okw, wdet, nassign = single_loop()
+    else:
+        facts, det, roles, members, okw, wdet, nassign = builder_phases(F, cls, rebuild, flags_member, dim, expected_flags, dirty, count_member, run)
     chk.ob("C09-R1", "%s layout loop visits waypoints 0..N inclusive" % cls, facts["range"], where, det.get("range", ""), construct=cls + "/layout/range")
     chk.ob("C09-R1", "%s offsets start right after the N time variables" % cls, facts["first"], where, det.get("first", ""), construct=cls + "/layout/first-offset")
     chk.ob("C09-R1", "%s entry = (waypoint index, running offset, that waypoint's unconstrained width)" % cls, facts["entry"], where, det.get("entry", str(roles)), construct=cls + "/layout/entry")
     chk.ob("C09-R1", "%s running offset advances by that width exactly when the waypoint is entered" % cls, facts["advance"], where, det.get("advance", ""), construct=cls + "/layout/advance")
     chk.ob("C09-R1", "%s the layout list is emptied before it is rebuilt" % cls, facts["clear"], where, "", construct=cls + "/layout/clear")
-    sp_, ep_ = fsym("start_p"), fsym("end_p")
-    all_first, all_last = [a for a, _ in results["first"]], [a for a, _ in results["last"]]
-    okw = (all(a.get(sp_) is True for a in pushing["first"]) and all(a.get(sp_) is False for a in all_first if a not in pushing["first"]) and
-           all(a.get(ep_) is True for a in pushing["last"]) and all(a.get(ep_) is False for a in all_last if a not in pushing["last"]) and
-           len(pushing["middle"]) == len(results["middle"]) and bool(pushing["first"]) and bool(pushing["last"]))
-    chk.ob("C09-R1", "%s waypoint 0 / N optimised iff start_p / end_p, inner waypoints always" % cls, okw, where,
-           "entered: first on %d of %d flag assignments, last on %d of %d, inner on %d of %d" % (len(pushing["first"]), len(all_first), len(pushing["last"]), len(all_last), len(pushing["middle"]), len(results["middle"])),
-           construct=cls + "/layout/which")
+    chk.ob("C09-R1", "%s waypoint 0 / N optimised iff start_p / end_p, inner waypoints always" % cls, okw, where, wdet, construct=cls + "/layout/which")
     chk.ob("C09-R1", "%s derivative offset = offset after the last waypoint" % cls, facts["doff"] and "D" in members, where, det.get("doff", str(members)), construct=cls + "/layout/derivative-offset")
     chk.ob("C09-R1", "%s total dimension = derivative offset + (flagged blocks the order has) * DIM, for every flag assignment" % cls, facts["total"] and facts["flags"], where,
-           det.get("total", det.get("flags", "%d assignments" % len(results["last"]))), construct=cls + "/layout/total")
+           det.get("total", det.get("flags", "%d assignments" % nassign)), construct=cls + "/layout/total")
     # getDimension: the cached total after ensuring the cache, on both states of the dirty flag
     gd = F.func1(cls, "getDimension")
     chk.saw(gd)
